@@ -1,6 +1,7 @@
 (* Props/C02.v — property C02: abelian (block-sparse) contraction equals dense
-   contraction.  Blockwise strategy.  Statements only; proofs live in
-   Proofs/Tdot.v and Proofs/TdotInst.v. *)
+   contraction.  Blockwise strategy; trace, scalar results, single-array einsum.
+   Statements only; proofs live in Proofs/Tdot.v, Proofs/TdotInst.v and
+   Proofs/TraceEinsumProofs.v. *)
 From SV Require Import Base.Prelude Base.Sym Base.Tensor Model.Sectors Model.Array Model.Wf
   Model.SymInst Proofs.Tdot Proofs.TdotInst.
 Local Open Scope nat_scope.
@@ -127,6 +128,220 @@ Theorem C02_matmul_sem :
                 (index_coords G (nth 1 (indices G R a) (dflt_index G)))).
 Proof. exact matmul_sem. Qed.
 
+(* ------------------------------------------------------------------ *)
+(* Remaining clauses: trace, scalar results, no aligned blocks, single-array
+   einsum.  Proofs in Proofs/TraceEinsumProofs.v. *)
+From SV Require Import Proofs.TraceEinsumProofs.
+
+(* The block-sparse trace is the dense trace: the sum of the diagonal entries
+   over all (charge, offset) coordinates of the (common) table.  Blocks whose two
+   charges differ never contribute; a missing diagonal block contributes 0. *)
+Theorem C02_trace_sem :
+  forall (G : Symmetry) (R : Ring), SumLaws R ->
+  (forall x y : C G, ceqb G x y = true <-> x = y) ->
+  forall x : aarray G R,
+  wf_array G R x = true -> ndim G R x = 2 ->
+  chargemap G (nth 0 (indices G R x) (dflt_index G)) = chargemap G (nth 1 (indices G R x) (dflt_index G)) ->
+  charges_nodup G [nth 0 (indices G R x) (dflt_index G)] = true ->
+  a_trace G R x =
+  Some (rsum R (map (fun c => sem G R x [c; c]) (index_coords G (nth 0 (indices G R x) (dflt_index G))))).
+Proof. exact trace_sem. Qed.
+
+Theorem C02_trace_sem_builtin :
+  forall (G : Symmetry) (R : Ring) (x : aarray G R),
+  builtin_sym G -> exact_ring R ->
+  wf_array G R x = true -> ndim G R x = 2 ->
+  chargemap G (nth 0 (indices G R x) (dflt_index G)) = chargemap G (nth 1 (indices G R x) (dflt_index G)) ->
+  a_trace G R x =
+  Some (rsum R (map (fun c => sem G R x [c; c]) (index_coords G (nth 0 (indices G R x) (dflt_index G))))).
+Proof. exact trace_sem_builtin. Qed.
+
+Theorem C02_trace_none :
+  forall (G : Symmetry) (R : Ring) (x : aarray G R), a_trace G R x = None <-> ndim G R x <> 2.
+Proof. exact trace_none. Qed.
+
+(* Full contraction (every axis of both operands contracted): the returned
+   scalar is the dense sum over all contracted coordinates. *)
+Theorem C02_scalar_result :
+  forall (G : Symmetry) (R : Ring),
+  (forall x y : C G, ceqb G x y = true <-> x = y) -> SumLaws R ->
+  forall (a b : aarray G R) (aa ab : list nat),
+  wf_array G R a = true -> wf_array G R b = true ->
+  axes_ok (ndim G R a) aa = true -> axes_ok (ndim G R b) ab = true ->
+  length aa = ndim G R a -> length ab = ndim G R b -> length aa = length ab ->
+  charges_nodup G (take_axes (dflt_index G) (indices G R a) aa) = true ->
+  a_scalar G R (tdot_blockwise G R a b [] aa ab []) =
+  rsum R (map (fun kc => rmul R (sem G R a (merge G (ndim G R a) aa [] kc))
+                                (sem G R b (merge G (ndim G R b) ab [] kc)))
+              (all_coords G (take_axes (dflt_index G) (indices G R a) aa))).
+Proof. exact scalar_result. Qed.
+
+(* ... and both are 0 when no stored block of a aligns with a stored block of b. *)
+Theorem C02_scalar_no_aligned :
+  forall (G : Symmetry) (R : Ring),
+  (forall x y : C G, ceqb G x y = true <-> x = y) -> SumLaws R ->
+  forall (a b : aarray G R) (aa ab : list nat),
+  wf_array G R a = true -> wf_array G R b = true ->
+  axes_ok (ndim G R a) aa = true -> axes_ok (ndim G R b) ab = true ->
+  length aa = ndim G R a -> length ab = ndim G R b -> length aa = length ab ->
+  charges_nodup G (take_axes (dflt_index G) (indices G R a) aa) = true ->
+  any_aligned G R a b aa ab = false ->
+  a_scalar G R (tdot_blockwise G R a b [] aa ab []) = r0 R /\
+  rsum R (map (fun kc => rmul R (sem G R a (merge G (ndim G R a) aa [] kc))
+                                (sem G R b (merge G (ndim G R b) ab [] kc)))
+              (all_coords G (take_axes (dflt_index G) (indices G R a) aa))) = r0 R.
+Proof. exact scalar_no_aligned. Qed.
+
+(* No aligned pair of blocks, any axes: the result stores no block, reads 0 at
+   every coordinate and as a scalar, has the combined charge, the right rank,
+   and every one of its tables is pruned to nothing. *)
+Theorem C02_no_aligned_blocks :
+  forall (G : Symmetry) (R : Ring),
+  (forall x y : C G, ceqb G x y = true <-> x = y) ->
+  forall (a b : aarray G R) (la aa ab rb : list nat),
+  any_aligned G R a b aa ab = false ->
+  let res := tdot_blockwise G R a b la aa ab rb in
+  blocks G R res = [] /\
+  (forall cs : list (coord G), sem G R res cs = r0 R) /\
+  a_scalar G R res = r0 R /\
+  charge G R res = combine G [charge G R a; charge G R b] /\
+  length (indices G R res) = length (without_axes (indices G R a) aa ++ without_axes (indices G R b) ab) /\
+  (forall ix : index G, In ix (indices G R res) -> chargemap G ix = []).
+Proof. exact no_aligned_blocks. Qed.
+
+(* ... and the dense contraction of the operands is then 0 as well, at every
+   coordinate of the free tables. *)
+Theorem C02_no_aligned_dense_zero :
+  forall (G : Symmetry) (R : Ring),
+  (forall x y : C G, ceqb G x y = true <-> x = y) -> SumLaws R ->
+  forall (a b : aarray G R) (la aa ab rb : list nat) (cl cr : list (coord G)),
+  wf_array G R a = true -> wf_array G R b = true ->
+  axes_ok (ndim G R a) aa = true -> axes_ok (ndim G R b) ab = true -> length aa = length ab ->
+  la = rest_axes (ndim G R a) aa -> rb = rest_axes (ndim G R b) ab ->
+  charges_nodup G (take_axes (dflt_index G) (indices G R a) aa) = true ->
+  coords_ok G (without_axes (indices G R a) aa) cl = true ->
+  coords_ok G (without_axes (indices G R b) ab) cr = true ->
+  any_aligned G R a b aa ab = false ->
+  sem G R (tdot_blockwise G R a b la aa ab rb) (cl ++ cr) = r0 R /\
+  rsum R (map (fun kc => rmul R (sem G R a (merge G (ndim G R a) aa cl kc))
+                                (sem G R b (merge G (ndim G R b) ab cr kc)))
+              (all_coords G (take_axes (dflt_index G) (indices G R a) aa))) = r0 R.
+Proof. exact no_aligned_dense_zero. Qed.
+
+(* Single-array einsum "lhs->rhs", labels as numbers.  `labels_ok`: the output
+   labels are distinct and each occurs exactly once in lhs; `a_einsum = Some`
+   makes every other label of lhs occur exactly twice.  `traced_of lhs rhs` are
+   the summed labels in order of first occurrence, `etperm` their first
+   positions, `eperm` the positions of the output labels.  `place d lhs rhs co tc`
+   is the coordinate list of x that carries, at every position of lhs, the entry
+   of `co` for an output label and the entry of `tc` for a summed label (the same
+   one at both of its positions).  The value of the result at `co` is the sum,
+   over one coordinate per summed label ranging over the table of its first
+   position, of the values of x. *)
+Theorem C02_einsum_sem :
+  forall (G : Symmetry) (R : Ring), SumLaws R ->
+  (forall x y : C G, ceqb G x y = true <-> x = y) ->
+  forall (x : aarray G R) (lhs rhs : list nat) (y : aarray G R) (co : list (coord G)),
+  a_einsum G R x lhs rhs = Some y ->
+  wf_array G R x = true -> labels_ok lhs rhs = true ->
+  charges_nodup G (take_axes (dflt_index G) (indices G R x) (etperm lhs rhs)) = true ->
+  coords_ok G (indices G R y) co = true ->
+  sem G R y co =
+  rsum R (map (fun tc => sem G R x (place (ident G, 0) lhs rhs co tc))
+              (all_coords G (take_axes (dflt_index G) (indices G R x) (etperm lhs rhs)))).
+Proof. exact einsum_sem. Qed.
+
+(* When the two positions of every summed label have the same table, each
+   coordinate list read on the right-hand side above lies inside the tables of x. *)
+Theorem C02_einsum_coords_ok :
+  forall (G : Symmetry) (R : Ring),
+  (forall x y : C G, ceqb G x y = true <-> x = y) ->
+  forall (x : aarray G R) (lhs rhs : list nat) (y : aarray G R) (co : list (coord G)),
+  a_einsum G R x lhs rhs = Some y ->
+  labels_ok lhs rhs = true ->
+  charges_nodup G (take_axes (dflt_index G) (indices G R x) (etperm lhs rhs)) = true ->
+  traced_tables_ok G (indices G R x) lhs rhs = true ->
+  coords_ok G (indices G R y) co = true ->
+  forall tc : list (coord G),
+  In tc (all_coords G (take_axes (dflt_index G) (indices G R x) (etperm lhs rhs))) ->
+  coords_ok G (indices G R x) (place (ident G, 0) lhs rhs co tc) = true.
+Proof. exact einsum_coords_ok. Qed.
+
+(* The result's indices are the indices of x at the output labels' positions;
+   the total charge is unchanged. *)
+Theorem C02_einsum_indices :
+  forall (G : Symmetry) (R : Ring) (x : aarray G R) (lhs rhs : list nat) (y : aarray G R),
+  a_einsum G R x lhs rhs = Some y ->
+  indices G R y = take_axes (dflt_index G) (indices G R x) (eperm lhs rhs) /\
+  charge G R y = charge G R x.
+Proof. exact einsum_indices. Qed.
+
+(* `None` exactly for a wrong number of labels or a label that is not an output
+   label and does not occur exactly twice. *)
+Theorem C02_einsum_none :
+  forall (G : Symmetry) (R : Ring) (x : aarray G R) (lhs rhs : list nat),
+  a_einsum G R x lhs rhs = None <->
+  length lhs <> ndim G R x \/ (exists q : nat, In q lhs /\ ~ In q rhs /\ count_nat q lhs <> 2).
+Proof. exact einsum_none. Qed.
+
+(* Special case: one summed pair, e.g. "abcb->ca". *)
+Theorem C02_einsum_one_pair_sem :
+  forall (G : Symmetry) (R : Ring), SumLaws R ->
+  (forall x y : C G, ceqb G x y = true <-> x = y) ->
+  forall (x : aarray G R) (lhs rhs : list nat) (q : nat) (y : aarray G R) (co : list (coord G)),
+  a_einsum G R x lhs rhs = Some y ->
+  wf_array G R x = true -> labels_ok lhs rhs = true ->
+  traced_of lhs rhs = [q] ->
+  charges_nodup G [nth (index_of q lhs) (indices G R x) (dflt_index G)] = true ->
+  coords_ok G (indices G R y) co = true ->
+  sem G R y co =
+  rsum R (map (fun c => sem G R x (place (ident G, 0) lhs rhs co [c]))
+              (index_coords G (nth (index_of q lhs) (indices G R x) (dflt_index G)))).
+Proof. exact einsum_one_pair_sem. Qed.
+
+(* Special case: no summed label, a pure permutation of the axes; same form as
+   C08's transpose theorem ... *)
+Theorem C02_einsum_perm_sem :
+  forall (G : Symmetry) (R : Ring), SumLaws R ->
+  (forall x y : C G, ceqb G x y = true <-> x = y) ->
+  forall (x : aarray G R) (lhs rhs : list nat) (y : aarray G R) (cs : list (coord G)),
+  a_einsum G R x lhs rhs = Some y ->
+  wf_array G R x = true -> labels_ok lhs rhs = true ->
+  traced_of lhs rhs = [] ->
+  coords_ok G (indices G R x) cs = true ->
+  sem G R y (permuted (ident G, 0) cs (eperm lhs rhs)) = sem G R x cs /\
+  indices G R y = permuted (dflt_index G) (indices G R x) (eperm lhs rhs) /\
+  charge G R y = charge G R x /\
+  coords_ok G (indices G R y) (permuted (ident G, 0) cs (eperm lhs rhs)) = true.
+Proof. exact einsum_perm_sem. Qed.
+
+(* ... and it agrees with `transpose(x, eperm lhs rhs)`. *)
+Theorem C02_einsum_perm_is_transpose :
+  forall G : Symmetry, GroupLaws G -> forall R : Ring, SumLaws R ->
+  forall (x : aarray G R) (lhs rhs : list nat) (y : aarray G R) (cs : list (coord G)),
+  a_einsum G R x lhs rhs = Some y ->
+  wf_array G R x = true -> labels_ok lhs rhs = true ->
+  traced_of lhs rhs = [] ->
+  coords_ok G (indices G R x) cs = true ->
+  Permutation.Permutation (eperm lhs rhs) (seq 0 (ndim G R x)) /\
+  sem G R y (permuted (ident G, 0) cs (eperm lhs rhs)) =
+  sem G R (a_transpose G R x (eperm lhs rhs)) (permuted (ident G, 0) cs (eperm lhs rhs)) /\
+  indices G R y = indices G R (a_transpose G R x (eperm lhs rhs)) /\
+  charge G R y = charge G R (a_transpose G R x (eperm lhs rhs)).
+Proof. exact einsum_perm_is_transpose. Qed.
+
+(* Special case: no output label (e.g. "abab->"): the returned scalar. *)
+Theorem C02_einsum_scalar :
+  forall (G : Symmetry) (R : Ring), SumLaws R ->
+  (forall x y : C G, ceqb G x y = true <-> x = y) ->
+  forall (x : aarray G R) (lhs : list nat) (y : aarray G R),
+  a_einsum G R x lhs [] = Some y -> wf_array G R x = true ->
+  charges_nodup G (take_axes (dflt_index G) (indices G R x) (etperm lhs [])) = true ->
+  a_scalar G R y =
+  rsum R (map (fun tc => sem G R x (place (ident G, 0) lhs [] [] tc))
+              (all_coords G (take_axes (dflt_index G) (indices G R x) (etperm lhs [])))).
+Proof. exact einsum_scalar. Qed.
+
 Print Assumptions C02_blockwise_sem.
 Print Assumptions C02_blockwise_sem_wf.
 Print Assumptions C02_blockwise_sem_builtin.
@@ -136,3 +351,18 @@ Print Assumptions C02_blockwise_charge.
 Print Assumptions C02_blockwise_indices.
 Print Assumptions C02_tensordot_blockwise_sem.
 Print Assumptions C02_matmul_sem.
+Print Assumptions C02_trace_sem.
+Print Assumptions C02_trace_sem_builtin.
+Print Assumptions C02_trace_none.
+Print Assumptions C02_scalar_result.
+Print Assumptions C02_scalar_no_aligned.
+Print Assumptions C02_no_aligned_blocks.
+Print Assumptions C02_no_aligned_dense_zero.
+Print Assumptions C02_einsum_sem.
+Print Assumptions C02_einsum_coords_ok.
+Print Assumptions C02_einsum_indices.
+Print Assumptions C02_einsum_none.
+Print Assumptions C02_einsum_one_pair_sem.
+Print Assumptions C02_einsum_perm_sem.
+Print Assumptions C02_einsum_perm_is_transpose.
+Print Assumptions C02_einsum_scalar.
